@@ -1554,6 +1554,26 @@ def judgeC18 (ops : List OpRec) : List String :=
     | _ => s) ({} : JSt)
   first ++ s.out
 
+/-! ### C13 -/
+
+/-- every operation returns a value or an error: no panic, no allocation request of 1 GiB or more, no operation that
+    runs away; evaluated on the implementation's results and the harness's notes alone -/
+def judgeC13 (ops : List OpRec) : List String :=
+  let s := ops.foldl (fun (s : JSt) (op : OpRec) =>
+    let noteOf (k : String) : Option String := (op.notes.find? (fun (n : List String) => n.head? == some k)).map fun (n : List String) => " ".intercalate (n.drop 1)
+    let s := if op.result == "panic" then
+        let loc := (noteOf "panic-at").getD "?"
+        -- the file is the stable part of the location
+        let file := ((loc.splitOn ":").head?).getD "?"
+        viol s s!"C13-panic-in-{file}" op s!"panicked at {loc}"
+      else s
+    let s := if op.result == "bigalloc" then viol s "C13-allocation-1GiB" op s!"asked for a single allocation of {(noteOf "alloc-request").getD "?"} bytes" else s
+    let s := match noteOf "slow-op" with
+      | some ms => viol s "C13-runaway" op s!"took {ms} ms"
+      | none => s
+    s) ({} : JSt)
+  s.out
+
 def judge (prop : String) (lines : List String) : List String :=
   let ops := parseOps lines
   match prop with
@@ -1576,6 +1596,7 @@ def judge (prop : String) (lines : List String) : List String :=
   | "C17" => judgeC17 ops
   | "C15" => judgeC15 ops
   | "C18" => judgeC18 ops
+  | "C13" => judgeC13 ops
   | _ => []
 
 end Kafka.Judge
